@@ -425,7 +425,8 @@ def run(ctx):
     from .evalhelpers import cached_witness, report_witness, workflow_api_witness, workflow_map_witness
     ww = cached_witness(ctx, "workflow-api", workflow_api_witness)
     report_witness(r1, "src/gwf/workflow.py::Workflow::witnesses", "src/gwf/workflow.py:1", ww,
-                   "direct and template targets get the workflow's directory (or the template's own), are registered under their name, duplicates are rejected")
+                   "direct and template targets get the workflow's directory (or the template's own), are registered under their name, duplicates are rejected",
+                   select=lambda d: "protect" not in d and "dictionary object" not in d)
     wm = cached_witness(ctx, "workflow-map", workflow_map_witness)
     report_witness(r5, "src/gwf/workflow.py::Workflow.map::witnesses", "src/gwf/workflow.py:1", wm,
                    "one target per item (scalar / sequence / mapping items), names <template or given name>_<index> or from the naming function")
